@@ -12,15 +12,18 @@ Import-free (core Lean only).
   the `pending_anchor_id` register and the `TupleSer` arms `AnchorStrong` / `AnchorWeak` of `src/ser.rs`.
   The register is taken by every node that is written: scalars (`write_scalar_prefix_if_anchor`, also
   `null` from `serialize_none`/`serialize_unit` and from a dangling weak), `serialize_seq`/`serialize_map`
-  (`write_anchor_for_complex_node`) and enum variants with data (`write_anchor_before_variant_key`) —
-  with one exception that is still in the code: the block-scalar path of `serialize_str`
-  (`LeafKind.takesAnchor`).  A wrapper directly inside a wrapper is the same YAML node as the outer
+  (`write_anchor_for_complex_node`) and enum variants with data (`write_anchor_before_variant_key`).
+  The block-scalar path of `serialize_str` cannot write it (a block scalar header carries no node
+  properties): it drops the register and forgets the pointer(s) registered under that id, so a
+  block-scalar payload is written in full at every occurrence (`forgetPending`, `LeafKind.takesAnchor`).
+  A wrapper directly inside a wrapper is the same YAML node as the outer
   one: while the outer anchor is pending the inner pointer is registered under that same id; if the
   inner pointer is already anchored the node cannot be written (`SerErr.aliasNeedsAnchor`).
 * **Deserializer side** (`de`, `deE`): the thread-local `AnchorState` of `src/anchor_store.rs` (context
   stack, the four stores merged into one map keyed by kind, in-progress counts = multiplicity on the
   stack), the `__yaml_*` arms of `deserialize_newtype_struct` in `src/de.rs` (`peek_anchor_id`,
-  `with_anchor_context`), the `Deserialize` impls of `src/anchors.rs`, and the part of the event pump
+  `with_anchor_context(own_context_id(..))`: every wrapper enters a context of its own, `NOT_ANCHORED`
+  when its node has no anchor), the `Deserialize` impls of `src/anchors.rs`, and the part of the event pump
   that matters here (`src/live_events.rs`: anchored nodes are recorded under their numeric id, an alias
   replays the recorded node *with the ids of the definition*, an alias to a node still being recorded
   yields the null placeholder iff `recursive_anchor_in_progress(id)`).
@@ -55,8 +58,7 @@ inductive LeafKind where
   | word
   /-- `serialize_none` / `serialize_unit` / dangling weak: `null` -/
   | null
-  /-- literal / folded block scalar path of `serialize_str`: the only path left that does not look at
-  `pending_anchor_id` -/
+  /-- literal / folded block scalar path of `serialize_str`: cannot carry an anchor (`forgetPending`) -/
   | block
 deriving DecidableEq, Repr, Inhabited
 
@@ -149,6 +151,15 @@ def allocAnchorFor (s : SerSt) (p : Ptr) : Except SerErr (Nat × Bool × SerSt) 
 def anchorNameIndex (s : SerSt) (id : Nat) : Option (Nat × Bool) :=
   if id = 0 then none else some (id - 1, decide (id - 1 < s.next - 1))
 
+/-- the block-scalar path of `serialize_str`: the header cannot carry an anchor, so a pending anchor is
+dropped and every pointer registered under it is forgotten
+(`if let Some(id) = pending_anchor_id.take() { anchors.retain(|_, known| *known != id) }`): this and
+every later occurrence of such a pointer is written in full. -/
+def forgetPending (s : SerSt) : SerSt :=
+  match s.pending with
+  | none => s
+  | some id => { s with pending := none, anchors := s.anchors.filter (fun e => e.2 != id) }
+
 def lockCell (k : Kind) (p : Ptr) (held : List Ptr) : List Ptr := if k == .arcRec then p :: held else held
 
 /-- the two `TupleSer` anchor arms after the pointer of a live allocation has been captured
@@ -174,7 +185,7 @@ def serVal : Nat → Heap → SerSt → Val → Except SerErr (Out × SerSt)
   | 0, _, _, _ => .error .fuel
   | _ + 1, _, s, .leaf k =>
     if k.takesAnchor then .ok (.leaf (s.pending.getD 0) k, { s with pending := none })
-    else .ok (.leaf 0 k, s)
+    else .ok (.leaf 0 k, forgetPending s)
   | fuel + 1, H, s, .node isMap items =>
     match traverse (fun st x => serVal fuel H st x) { s with pending := none } items with
     | .error e => .error e
@@ -297,13 +308,12 @@ def reentrant (s : DeSt) (k : Kind) (id : Nat) : Bool := decide (inProgressCount
 def recursiveAnchorInProgress (s : DeSt) (id : Nat) : Bool :=
   s.stack.contains (.rcRec, id) || s.stack.contains (.arcRec, id)
 
-/-- `with_anchor_context(kind, anchor, …)`: entry (`anchor = 0` ⇒ `None` ⇒ nothing happens) -/
-def pushCtx (s : DeSt) (k : Kind) (a : Nat) : DeSt :=
-  if a = 0 then s else { s with stack := (k, a) :: s.stack }
+/-- `with_anchor_context(kind, own_context_id(anchor), …)`: every wrapper enters a context of its own;
+a node without an anchor is entered under `NOT_ANCHORED` = 0 (`a = 0`) -/
+def pushCtx (s : DeSt) (k : Kind) (a : Nat) : DeSt := { s with stack := (k, a) :: s.stack }
 
 /-- `Guard::drop` -/
-def popCtx (s : DeSt) (a : Nat) : DeSt :=
-  if a = 0 then s else { s with stack := s.stack.tail }
+def popCtx (s : DeSt) (_a : Nat) : DeSt := { s with stack := s.stack.tail }
 
 /-- `get_rc::<T>` / `get_arc` / `get_*_recursive`: `Err` when the `TypeId` differs -/
 def getStored (s : DeSt) (k : Kind) (id tid : Nat) : Except DeErr (Option Ptr) :=
@@ -399,10 +409,12 @@ def deCore (onAlias : Ty → Nat → DeSt → DeRes) (live : Bool) : Ty → Out 
     match o with
     | .alias id => onAlias (.strong k tid inner) id s
     | o =>
-      -- de.rs: `peek_anchor_id` + `with_anchor_context`; anchors.rs: `visit_newtype_struct`
+      -- de.rs: `peek_anchor_id` + `with_anchor_context(own_context_id(..))`; anchors.rs:
+      -- `visit_newtype_struct` — the context id `NOT_ANCHORED` means "this node has no anchor": the
+      -- wrapper builds a fresh pointer that is not stored (it never uses an enclosing wrapper's id)
       let a := o.rootAnchor
       let s1 := pushCtx s k a
-      match currentAnchorId s1 k with
+      match (if a = 0 then none else currentAnchorId s1 k) with
       | none =>
         match deCore onAlias live inner o s1 with
         | .error e => .error e
@@ -435,12 +447,12 @@ def deCore (onAlias : Ty → Nat → DeSt → DeRes) (live : Bool) : Ty → Out 
     | o =>
       let a := o.rootAnchor
       if a = 0 then
-        -- de.rs: a weak wrapper always gets a context of its own (`weak_context_id`), `NOT_ANCHORED` when
+        -- de.rs: a weak wrapper, too, always gets a context of its own (`own_context_id`), `NOT_ANCHORED` when
         -- its node has no anchor, so it never sees the id of an enclosing wrapper.  anchors.rs: such a
         -- node is read as `Option<IgnoredAny>`: `null` is a dangling weak, anything else an error
         if o.isNull then .ok (.weakNull k, o, s)
         else
-          match (if live then skipLive o { s with stack := (k, 0) :: s.stack } else .ok (o, s)) with
+          match (if live then skipLive o (pushCtx s k 0) else .ok (o, s)) with
           | .error e => .error e
           | .ok _ => .error .weakNoAnchor
       else
